@@ -107,11 +107,80 @@ Qed.
 
 (* non-vacuity: a two-hop chase, both hops filed with AD, a DO client — and the same with the alias entry unauthenticated *)
 Example two_hop_chase :
-  let st := [(0, mk_centry true (Some 1)); (1, mk_centry true None)] in
+  let st := [(0, mk_centry true (Some 1) TData); (1, mk_centry true None TData)] in
   walk st 16 0 [] = ([0; 1], true) /\ served_ad (mk_creq false true false) st [0; 1] = true /\
-  served_ad (mk_creq false true false) [(0, mk_centry false (Some 1)); (1, mk_centry true None)] [0; 1] = false /\
+  served_ad (mk_creq false true false) [(0, mk_centry false (Some 1) TData); (1, mk_centry true None TData)] [0; 1] = false /\
   served_ad (mk_creq true true false) st [0; 1] = false.
 Proof. vm_compute. repeat split; reflexivity. Qed.
 Example looping_chase_is_incomplete :
-  walk [(0, mk_centry true (Some 1)); (1, mk_centry true (Some 0))] 16 0 [] = ([0; 1], false).
+  walk [(0, mk_centry true (Some 1) TData); (1, mk_centry true (Some 0) TData)] 16 0 [] = ([0; 1], false).
 Proof. vm_compute. reflexivity. Qed.
+
+(* ---- the reply composed for a chain that ends, a chain ending in a DENIAL included (session 4) ----
+   The entry the chain ends at may hand in no answer record at all — only the rcode and the authority section.  It is
+   still one of the responses on the path: "AD is set only when every RRset in the reply was validated". *)
+Lemma chase_reply_shape q st fuel qn r :
+  chase_reply q st fuel qn = Some r ->
+  exists path, walk st fuel qn [] = (path, true) /\ path <> [] /\ cr_ad r = served_ad q st path /\
+    cr_answer r ++ cr_auth r = path /\
+    ((term_of st (last path 0) = TData /\ cr_auth r = [] /\ cr_rcode r = 0) \/
+     (term_of st (last path 0) <> TData /\ cr_auth r = [last path 0] /\
+      (cr_rcode r = 3 <-> term_of st (last path 0) = TNxDomain))).
+Proof.
+  unfold chase_reply. destruct (walk st fuel qn []) as [path c] eqn:Ew. destruct c; [|discriminate].
+  intros H. injection H as <-. exists path. split; [reflexivity|].
+  destruct (walk_complete_terminal _ _ _ _ _ Ew) as (l & e & Hne & _).
+  split; [exact Hne|]. split; [reflexivity|]. cbn [cr_answer cr_auth cr_rcode].
+  destruct (term_of st (last path 0)) eqn:Et.
+  - split; [apply app_nil_r|]. left. repeat split; reflexivity.
+  - split; [symmetry; apply app_removelast_last; exact Hne|]. right.
+    split; [discriminate|]. split; [reflexivity|]. split; discriminate.
+  - split; [symmetry; apply app_removelast_last; exact Hne|]. right.
+    split; [discriminate|]. split; [reflexivity|]. split; reflexivity.
+Qed.
+
+(* AD on the composed reply: the client's flags allow it, and EVERY entry that contributed a record — to the answer or
+   to the authority section — was filed with AD *)
+Theorem chase_reply_ad_sound_lemma q st fuel qn r :
+  chase_reply q st fuel qn = Some r -> cr_ad r = true ->
+  q_cd q = false /\ (q_do q = true \/ q_ad q = true) /\
+  forall n, In n (cr_answer r ++ cr_auth r) -> exists e, cs_find st n = Some e /\ ce_ad e = true.
+Proof.
+  intros Hr Had. destruct (chase_reply_shape _ _ _ _ _ Hr) as (path & _ & _ & Hs & Hp & _).
+  rewrite Hs in Had. destruct (served_ad_sound_lemma _ _ _ Had) as (Hc & Hf & Ha).
+  split; [exact Hc|]. split; [exact Hf|]. rewrite Hp. exact Ha.
+Qed.
+
+(* a denial at the end of an alias chain: the reply's rcode and authority section are that ONE entry's, it is an entry
+   without an alias link, and the reply carries AD only if that denial itself was filed with AD — however many
+   authenticated aliases led to it (the statement seeded change C01-12 falsifies) *)
+Theorem chased_denial_rests_on_its_own_verdict_lemma q st fuel qn r :
+  chase_reply q st fuel qn = Some r -> (cr_auth r <> [] \/ cr_rcode r = 3) ->
+  exists l e, cr_auth r = [l] /\ cs_find st l = Some e /\ ce_next e = None /\ ce_term e <> TData /\
+              (cr_rcode r = 3 <-> ce_term e = TNxDomain) /\
+              (cr_ad r = true -> ce_ad e = true) /\ (ce_ad e = false -> cr_ad r = false).
+Proof.
+  intros Hr Hneg. destruct (chase_reply_shape _ _ _ _ _ Hr) as (path & Hw & Hne & Hs & Hp & Hk).
+  destruct (walk_complete_terminal _ _ _ _ _ Hw) as (l & e & _ & Hl & Hf & Hn).
+  destruct Hk as [(Ht & Ha & Hrc)|(Ht & Ha & Hrc)].
+  - destruct Hneg as [H|H]; [contradiction|]. rewrite Hrc in H. discriminate.
+  - rewrite Hl in *. unfold term_of in Ht, Hrc. rewrite Hf in Ht, Hrc.
+    assert (Hin : In l path) by (rewrite <- Hp, Ha; apply in_or_app; right; left; reflexivity).
+    assert (Had : cr_ad r = true -> ce_ad e = true).
+    { intros H. rewrite Hs in H. destruct (served_ad_sound_lemma _ _ _ H) as (_ & _ & Hall).
+      destruct (Hall l Hin) as (e' & He' & Hb). rewrite Hf in He'. injection He' as <-. exact Hb. }
+    exists l, e. repeat split; auto; try apply Hrc.
+    intros Hb. destruct (cr_ad r); [|reflexivity]. rewrite Had in Hb by reflexivity. discriminate.
+Qed.
+
+(* non-vacuity, and the shape C01-12 is about: two authenticated aliases into an UNVALIDATED NXDOMAIN / NODATA — the
+   client gets the aliases, the denial's rcode and SOA, and no AD; with the denial validated, AD *)
+Example alias_into_unvalidated_denial :
+  let q := mk_creq false true false in
+  chase_reply q [(0, mk_centry true (Some 1) TData); (1, mk_centry true (Some 2) TData); (2, mk_centry false None TNxDomain)] 16 0
+    = Some (mk_creply 3 false [0; 1] [2]) /\
+  chase_reply q [(0, mk_centry true (Some 1) TData); (1, mk_centry false None TNoData)] 16 0 = Some (mk_creply 0 false [0] [1]) /\
+  chase_reply q [(0, mk_centry true (Some 1) TData); (1, mk_centry true None TNxDomain)] 16 0 = Some (mk_creply 3 true [0] [1]) /\
+  chase_reply q [(0, mk_centry true (Some 1) TData); (1, mk_centry true None TData)] 16 0 = Some (mk_creply 0 true [0; 1] []) /\
+  chase_reply q [(0, mk_centry true (Some 1) TData); (1, mk_centry true (Some 0) TData)] 16 0 = None.
+Proof. vm_compute. repeat split; reflexivity. Qed.
